@@ -38,6 +38,26 @@ static void *worker_proc(void *ctx) {
   return ctx;
 }
 
+// a worker that sleeps on its stop event instead of polling: a stop that arrives while it is blocked in the wait must
+// still be seen by every later should_stop() (the stop event is manual-reset)
+static void *worker_proc_sleep(void *ctx) {
+  async_worker_t *self = async_worker_current();
+  platform_event_t *ev = async_worker_get_stop_event(self);
+  for (;;) {
+    platform_event_wait(ev, 200);
+    if (async_worker_should_stop(self)) break;
+  }
+  return ctx;
+}
+// ... and one that waits without a time limit and then goes on working for a moment, asking again before it leaves
+static void *worker_proc_block(void *ctx) {
+  async_worker_t *self = async_worker_current();
+  platform_event_t *ev = async_worker_get_stop_event(self);
+  platform_event_wait(ev, -1);
+  while (!async_worker_should_stop(self)) usleep(2000);
+  return ctx;
+}
+
 static double now_ms() { struct timeval tv; gettimeofday(&tv, 0); return tv.tv_sec * 1000.0 + tv.tv_usec / 1000.0; }
 
 // a writer that may have to wait for room (policy BLOCK_WRITER): runs in its own thread
@@ -109,7 +129,9 @@ static void run_scenario(const std::vector<std::vector<std::string>> &ops, FILE 
       async_queue_stats_t st; async_queue_get_stats(q, &st);
       fprintf(out, "{\"e\":\"QStats\",\"size\":%zu,\"dropped\":%llu}\n", st.current_size, (unsigned long long)st.dropped_count);
     } else if (o == "wcreate") {
-      w = async_worker_create(worker_proc, 0, 0);
+      std::string kind = op.size() > 1 ? op[1] : "poll";
+      w = async_worker_create(kind == "sleep" ? worker_proc_sleep : kind == "block" ? worker_proc_block : worker_proc, 0, 0);
+      if (kind != "poll") usleep(20000);          // let it reach its wait
       fprintf(out, "{\"e\":\"WCreate\"}\n");
     } else if (o == "wstop" && w) {
       async_worker_signal_stop(w);
@@ -199,7 +221,7 @@ static int stress(int seconds, const char *outf) {
   long lifecycle = 0, join_fail = 0;
   th.emplace_back([&]() {
     while (!stop.load()) {
-      async_worker_t *w = async_worker_create(worker_proc, 0, 0);
+      async_worker_t *w = async_worker_create(lifecycle % 4 == 1 ? worker_proc_sleep : lifecycle % 4 == 3 ? worker_proc_block : worker_proc, 0, 0);
       if (lifecycle % 3 == 0) std::this_thread::sleep_for(std::chrono::milliseconds(1));
       async_worker_signal_stop(w);
       if (!async_worker_join(w, 2000)) join_fail++;
